@@ -490,17 +490,29 @@ impl Axecutor {
             new_size
         );
 
-        // Iterate all areas once and save the index of the area to resize
-        let mut area_to_resize = None;
+        // Find the area to resize
+        let area_to_resize = self
+            .state
+            .memory
+            .iter()
+            .position(|area| area.start == start_addr);
 
-        // Also make sure there's no overlapping area already defined, including code region
+        // The resized area must end within the 64-bit address space
+        if new_size > 0 && start_addr.checked_add(new_size - 1).is_none() {
+            return Err(AxError::from(format!(
+                "Cannot resize section at address {start_addr:#x} to length {new_size}, as it does not fit into the address space"
+            )));
+        }
+
+        // Also make sure the new extent doesn't overlap with any other area, including code region
         for (i, area) in self.state.memory.iter().enumerate() {
-            if start_addr == area.start {
-                area_to_resize = Some(i);
+            if Some(i) == area_to_resize {
+                continue;
             }
 
-            // Make sure the new length doesn't overlap with any other area after it
-            if start_addr + new_size > area.start {
+            if (start_addr >= area.start && start_addr - area.start < area.length)
+                || (area.start >= start_addr && area.start - start_addr < new_size)
+            {
                 return Err(AxError::from(format!(
                     "Cannot resize section at address {:#x} to length {}, as it overlaps with another section starting at {:#x} (len={})",
                     start_addr, new_size, area.start, area.length
